@@ -110,6 +110,86 @@ fn soak<F: Fld>(op: &str, seed: u64, count: u64) -> Outcome {
     o
 }
 
+/// integer conversions through serde (winter-math's optional `serde` feature; build variant `serde` of this check):
+/// `serdede n` deserializes the JSON number n, `serdeser a` / `rserdeser raw` serialize an element
+#[cfg(feature = "serde")]
+fn exec_serde(f: &str, t: &[&str]) -> Option<Outcome> {
+    macro_rules! go {
+        ($T:ty) => {{
+            type F = $T;
+            let m = <F as Fld>::MOD;
+            let name = <F as Fld>::NAME;
+            match t {
+                ["serdede", n] => {
+                    let v: u128 = n.parse().ok()?;
+                    let r: Result<F, _> = serde_json::from_str(n);
+                    let mut o = Outcome::ok(match &r {
+                        Ok(x) => format!("ok {}", x.canon()),
+                        Err(_) => "err".to_string(),
+                    });
+                    match &r {
+                        Ok(x) if v >= m || x.canon() != v || !F::raw_ok(x.raw_word()) || x.canon() >= m => {
+                            o = o.fail(format!("{}.serde.de", name), format!("accepted {} as {} (raw word {})", v, x.canon(), x.raw_word()))
+                        },
+                        Err(_) if v < m => o = o.fail(format!("{}.serde.de", name), format!("rejected {}", v)),
+                        _ => {},
+                    }
+                    Some(o)
+                },
+                ["serdeser", a] | ["rserdeser", a] => {
+                    let raw = t[0] == "rserdeser";
+                    let w: u128 = a.parse().ok()?;
+                    let x = if raw { F::from_raw_word(w) } else { F::from_word(w) };
+                    let va = if raw { raw_val::<F>(w) } else { w % m };
+                    let s = serde_json::to_string(&x).unwrap_or_else(|_| "err".to_string());
+                    let mut o = Outcome::ok(s.clone());
+                    if s != format!("{}", va) {
+                        o = o.fail(format!("{}.serde.ser", name), format!("residue {} serialized as {}", va, s));
+                    }
+                    match serde_json::from_str::<F>(&s) {
+                        Ok(y) if y == x && y.canon() == va => {},
+                        _ => o = o.fail(format!("{}.serde.roundtrip", name), format!("from_str(to_string(x)) != x for residue {}", va)),
+                    }
+                    Some(o)
+                },
+                _ => None,
+            }
+        }};
+    }
+    match f {
+        "f64" => go!(f64::BaseElement),
+        "f62" => go!(f62::BaseElement),
+        "f128" => go!(f128::BaseElement),
+        _ => None,
+    }
+}
+
+#[cfg(feature = "serde")]
+fn gen_serde<F: Fld>(rng: &mut Rng, emit: &mut dyn FnMut(String)) {
+    let f = F::NAME;
+    let m = F::MOD;
+    let bnd = boundary(m, F::word_bits());
+    let rawlim = if f == "f62" { 2 * m } else { m };
+    let mut vals: Vec<u128> = bnd.clone();
+    for d in 0..4u128 {
+        vals.extend([m + d, m.wrapping_sub(1 + d), 2 * (m / 2) + d, (1u128 << 64) - 1 - d, (1u128 << 64) + d, u128::MAX - d, (1u128 << 127) + d, m.wrapping_mul(2).wrapping_add(d)]);
+    }
+    for _ in 0..400 {
+        vals.push(rng.u128() % m);
+        vals.push(rng.u128());
+        vals.push(rng.u64() as u128);
+    }
+    for v in &vals {
+        emit(format!("{} serdede {}", f, v));
+        if F::word_bits() == 128 || *v < (1u128 << 64) {
+            emit(format!("{} serdeser {}", f, v));
+        }
+        if *v < rawlim {
+            emit(format!("{} rserdeser {}", f, v));
+        }
+    }
+}
+
 fn exec_f<F: Fld>(t: &[&str]) -> Outcome {
     let m = F::MOD;
     let p = |s: &str| s.parse::<u128>().unwrap();
@@ -558,6 +638,12 @@ impl Prop for P {
         gen_f::<f64::BaseElement>(rng, n, emit);
         gen_f::<f62::BaseElement>(rng, n, emit);
         gen_f::<f128::BaseElement>(rng, n / 2, emit);
+        #[cfg(feature = "serde")]
+        {
+            gen_serde::<f64::BaseElement>(rng, emit);
+            gen_serde::<f62::BaseElement>(rng, emit);
+            gen_serde::<f128::BaseElement>(rng, emit);
+        }
         // volume runs judged by the oracle only: quick 2^22 inversions per loop-based field, thorough 2^30 for
         // the 128-bit field (events of probability ~1e-9, e.g. the rarest trip counts of the final reduction loop)
         let chunk: u64 = 1 << 16;
@@ -575,6 +661,12 @@ impl Prop for P {
     }
     fn exec(&self, line: &str) -> Outcome {
         let t: Vec<&str> = line.split(' ').collect();
+        #[cfg(feature = "serde")]
+        if t.len() > 1 {
+            if let Some(o) = exec_serde(t[0], &t[1..]) {
+                return o;
+            }
+        }
         match t[0] {
             "f64" => exec_f::<f64::BaseElement>(&t[1..]),
             "f62" => exec_f::<f62::BaseElement>(&t[1..]),
